@@ -742,7 +742,9 @@ class Interp:
             if not args:
                 return [] if n == "list" else ()
             if isinstance(args[0], T.Term) and not isinstance(args[0].meta.get("length"), int):
-                return T.mk(f"py.{n}", (args[0],), origin=site)
+                # same representation as the display [*x]: a static container holding one starred abstract sequence
+                star = T.mk("star", (args[0],), origin=site)
+                return [star] if n == "list" else (star,)
             items = self.iterate(args[0], site)
             return list(items) if n == "list" else tuple(items)
         if n == "dict":
